@@ -533,6 +533,10 @@ class C14(core.PropBase):
             yield self.rand_vtree(rng)
         for _ in range(20000 if thorough else 2500):
             yield self.rand_seq(rng)
+        # two parties at once on spaces of their own (a balanced and an unbalanced one, mostly): deterministic pre-emption
+        for _ in range(400 if thorough else 40):
+            a, b = self.rand_dims(rng), self.rand_dims(rng)
+            yield {"k": "seq", "seq": [a, b], "assoc": a.get("assoc") or b.get("assoc"), "preempt": True}
 
     def rule(self, tier):
         a, b = (9, 7) if tier == "thorough" else (7, 6)
@@ -584,6 +588,12 @@ class C14(core.PropBase):
                 return self.impl_decode(t)[0]
             if k == "dims":
                 return self.impl_dims(case)
+            if k == "seq" and case.get("preempt"):
+                # two parties at once: B's whole call runs at the function entries of A's (core.run_preempted)
+                a, b = case["seq"]
+                want_b = self.impl(b)
+                ra, odd, _ = core.run_preempted(lambda: self.impl(a), lambda: self.impl(b), want_b, max_points=150)
+                return ["seq", [ra, want_b if odd is None else ["other-party-differs", odd[1]]]]
             if k == "seq":
                 return ["seq", [self.impl(c) for c in case["seq"]]]
             if k == "vtree":
